@@ -12,6 +12,7 @@ import (
 
 	"github.com/risor-io/risor/compiler"
 	"github.com/risor-io/risor/errz"
+	"github.com/risor-io/risor/internal/verifhook"
 )
 
 var kindConverters = map[reflect.Kind]TypeConverter{
@@ -356,6 +357,7 @@ type TypeConverter interface {
 // NewTypeConverter returns a TypeConverter for the given Go kind and type.
 // Converters are cached internally for reuse.
 func NewTypeConverter(typ reflect.Type) (TypeConverter, error) {
+	verifhook.Yield("reg.lock")
 	goTypeMutex.Lock()
 	defer goTypeMutex.Unlock()
 
@@ -378,6 +380,7 @@ func createTypeConverter(typ reflect.Type) (TypeConverter, error) {
 // SetTypeConverter sets a TypeConverter for the given Go type. This is not
 // typically used, since the default converters should typically be sufficient.
 func SetTypeConverter(typ reflect.Type, conv TypeConverter) {
+	verifhook.Yield("reg.lock")
 	goTypeMutex.Lock()
 	defer goTypeMutex.Unlock()
 
